@@ -1,6 +1,7 @@
 package c11
 
 import (
+	"bytes"
 	"encoding/base64"
 	"encoding/binary"
 	"encoding/hex"
@@ -136,7 +137,7 @@ func startServer() (*pipeListener, error) {
 type e2eCase struct {
 	Msg      msgspec.Spec
 	Key      int      // index into e2eKeys
-	Variant  string   // good, edge, late, early, tampered, wrongsecret, unknownkey, casekey, ancestorkey, rootkey, none, libsigned
+	Variant  string   // good, edge, late, early, tampered, wrongsecret, unknownkey, casekey, ancestorkey, rootkey, twotsig, none, libsigned
 	Fudge    uint16   // >= 300
 	FlipBit  int      // tampered: bit position in the message body (reduced modulo its length)
 	Follow   []string // variants of further requests sent on the same connection (good, edge, late, early, wrongsecret)
@@ -226,6 +227,9 @@ func oneRequest(sess *session, c e2eCase, variant string, step int) error {
 	if len(spec.Extra) > 1 { // the default MsgAcceptFunc refuses more than two additional records (one + TSIG)
 		spec.Extra = spec.Extra[:1]
 	}
+	if c.Variant == "twotsig" {
+		spec.Extra = nil // two TSIG records are the two additional records the default MsgAcceptFunc lets through
+	}
 	packed, perr := spec.Build().Pack()
 	if perr != nil || len(packed) > 60000 {
 		return nil
@@ -287,6 +291,24 @@ func oneRequest(sess *session, c e2eCase, variant string, step int) error {
 		req, reqMAC, serr = ref.TsigSign(packed, t, secret, nil, false)
 		if serr != nil {
 			return nil
+		}
+		if c.Variant == "twotsig" {
+			// the holder of one configured key presents itself as the holder of another: its own TSIG,
+			// MACed over the octets in front of it with an ARCOUNT of 1, followed by a TSIG that names the
+			// other key (any MAC) as last record - the one Msg.IsTsig() shows to the handler. Not an RFC
+			// 8945 message (a TSIG anywhere but last, more than one TSIG): the reference refuses it
+			p := append([]byte(nil), packed...)
+			ref.SetARCount(p, 1)
+			if req, reqMAC, serr = ref.TsigSign(p, t, secret, nil, false); serr != nil {
+				return nil
+			}
+			other := e2eKeys[(((c.Key+1)%len(e2eKeys))+len(e2eKeys))%len(e2eKeys)]
+			t2 := t
+			t2.KeyName, _ = labelsOf(other.name)
+			t2.Algorithm, _ = labelsOf(other.alg)
+			t2.MAC = bytes.Repeat([]byte{0xa5}, macLen[other.alg])
+			req = t2.AppendTo(req)
+			ref.SetARCount(req, 2)
 		}
 		if c.Variant == "tampered" {
 			// somewhere in the question (the header flags and counts decide routing, leave them)
@@ -439,7 +461,11 @@ func genE2E(t *rapid.T) e2eCase {
 		c.Msg.Question = []msgspec.Q{{Name: 0, Type: 1, Class: 1}}
 	}
 	c.Key = rapid.IntRange(0, len(e2eKeys)-1).Draw(t, "key")
-	c.Variant = rapid.SampledFrom([]string{"good", "good", "edge", "late", "early", "tampered", "tampered", "wrongsecret", "unknownkey", "unknownkey-emptysecret", "unknownkey-namesecret", "casekey", "none", "libsigned", "multi", "multi", "ancestorkey", "rootkey"}).Draw(t, "variant")
+	c.Variant = rapid.SampledFrom([]string{"good", "good", "edge", "late", "early", "tampered", "tampered", "wrongsecret", "unknownkey", "unknownkey-emptysecret", "unknownkey-namesecret", "casekey", "none", "libsigned", "multi", "multi", "ancestorkey", "rootkey", "twotsig"}).Draw(t, "variant")
+	if c.Variant == "twotsig" && pbt.Known(findNotLast) {
+		pbt.Excluded(findNotLast)
+		c.Variant = "good"
+	}
 	c.Fudge = rapid.OneOf(rapid.Just(uint16(300)), rapid.Uint16Range(300, 65535)).Draw(t, "fudge")
 	c.FlipBit = rapid.IntRange(0, 1<<20).Draw(t, "flipbit")
 	c.UpperAlg = rapid.IntRange(0, 3).Draw(t, "upperalg") == 0
